@@ -100,6 +100,7 @@ def cases(seed, tier):
         yield c
     yield from long_cases(seed, tier)
     yield from lockstep_cases(seed, tier)
+    yield from rate_cases(seed, tier)
 
 
 def lockstep_cases(seed, tier):
@@ -121,6 +122,43 @@ def lockstep_cases(seed, tier):
                  'preempt_stretch': [rng.choice([40, 400]), rng.choice([400, 4000])]}
         yield {'targets': targets, 'mode': mode, 'opts': ['-n'] if mode == 'text' else ['-j'], 'threads': rng.choice([2, 3]), 'sched': sched,
                'net': {'rtt_us': rng.choice([100, 300])}, 'pseed': rng.getrandbits(32), 'timeout': 2}
+
+
+def rate_cases(seed, tier):
+    """Multi-target runs in which the connection-rate check of the standard audit runs (every other case of this campaign passes
+    --skip-rate-test): the check is a second phase with its own resolver query, its own sockets and its own early exits (a target
+    with no Diffie-Hellman key exchange skips it), so a target can fail, or leave the phase early, while the other workers are
+    about to enter it.  The round-trip time is 300 ms, which keeps the measured rate (at most 3 sockets per round trip) far below
+    the 25 connections per second at which the check adds a warning, in the multi-target run and in the single-target reference
+    runs alike, so that the status comparison cannot depend on scheduling."""
+    for j in range(40 if tier == 'quick' else 600):
+        rng = gen.case_rng(seed, ID, 'rate', j)
+        k = rng.choice([2, 3, 3, 4])
+        targets = []
+        for i in range(k):
+            r = rng.random()
+            if r < 0.3:
+                t = make_target(rng, rng.choice(['clean', 'rsa2048']), i)
+                # no Diffie-Hellman key exchange at all: post-quantum hybrids / names the tool does not know
+                t['arch'] = 'no_dh_kex'
+                t['profile']['kex'] = rng.choice([['sntrup761x25519-sha512@openssh.com', 'mlkem768x25519-sha256'], ['made-up-kex@example.com'],
+                                                  ['sntrup761x25519-sha512@openssh.com', 'kex-strict-s-v00@openssh.com']])
+            elif r < 0.5:
+                t = bad_target(rng, rng.choice(['refused', 'silent', 'close_after_banner', 'trunc_kexinit', 'unresolvable', 'reset_mid']), i)
+            elif r < 0.6:
+                # healthy during the audit proper, gone when the rate check starts: every connection after the probes is refused / reset / ignored
+                t = make_target(rng, 'clean', i)
+                t['arch'] = 'gone_for_rate_check'
+                t['profile']['kex'] = ['curve25519-sha256', 'diffie-hellman-group14-sha256', 'kex-strict-s-v00@openssh.com']
+                t['profile']['key'] = ['ssh-ed25519']
+                t['faults'] = [{'conn_from': 2, 'kind': rng.choice(['refuse', 'blackhole'])}] if rng.random() < 0.6 else [{'conn_from': 2, 'msg': 'banner', 'kind': 'truncate_reset', 'off': 0}]
+            else:
+                t = make_target(rng, rng.choice(['clean', 'terrapin_marked', 'rsa2048', 'cbc_etm']), i)
+            t['host'], t['ip'] = 'rate%d-%s' % (i, t['host']), '192.0.2.%d' % (60 + i)
+            targets.append(t)
+        mode = rng.choice(['text', 'json'])
+        yield {'targets': targets, 'mode': mode, 'opts': rng.choice([['-n'], ['-n', '-b']]) if mode == 'text' else ['-j'], 'threads': rng.choice([1, 2, k, 32]),
+               'sched': gen.rand_sched(rng, preempt=False), 'net': {'rtt_us': 300_000}, 'pseed': rng.getrandbits(32), 'timeout': 2, 'rate_test': True}
 
 
 def long_cases(seed, tier):
@@ -205,6 +243,8 @@ def run_case(case, ctx):
         order = tuple(multi.block_target(b, targets) for b in multi.split_text_blocks(mrec['stdout'])) if case['mode'] == 'text' else ()
         keys.append(h(tuple(a if s not in (0, 2, 3) else '.' for a, s in zip(archs, sts)), case['threads'], case['mode'], order))
     counters = {'bad_targets': nbad, 'mode_' + case['mode']: 1}
+    if case.get('rate_test'):
+        counters['runs with the connection-rate check'] = 1
     for pos, (a, st) in enumerate(zip(archs, sts)):
         if st not in (0, 2, 3):
             counters['failing %s at position %d/%d' % (a, pos + 1, n)] = 1
